@@ -432,7 +432,7 @@ class Check:
 
     def save_replay(self, sig, v):
         key = re.sub(r"[^A-Za-z0-9_.-]+", "_", sig)[:60] + "-" + hashlib.sha256(sig.encode()).hexdigest()[:8]
-        rd = os.path.join(VERIF, "replays", self.prop, key)
+        rd = os.path.join(os.environ.get("ZCKV_REPLAY_DIR", os.path.join(VERIF, "replays")), self.prop, key)
         shutil.rmtree(rd, ignore_errors=True)
         os.makedirs(rd, exist_ok=True)
         if v.get("cdir") and os.path.isdir(v["cdir"]):
@@ -451,8 +451,9 @@ class Check:
         ev = {"property_id": self.prop, "tier": self.tier, "seed": int(self.seed), "level": self.level,
               "coverage": cov, "assumptions": self.assumptions, "wall_s": round(time.time() - self.t0, 1),
               "violations": nviol}
-        os.makedirs(os.path.join(VERIF, "evidence"), exist_ok=True)
-        p = os.path.join(VERIF, "evidence", self.prop + ".json")
+        evd = os.environ.get("ZCKV_EVIDENCE_DIR", os.path.join(VERIF, "evidence"))
+        os.makedirs(evd, exist_ok=True)
+        p = os.path.join(evd, self.prop + ".json")
         with open(p + ".tmp", "w") as f:
             json.dump(ev, f, indent=1, default=str)
         os.replace(p + ".tmp", p)
